@@ -50,7 +50,7 @@ func init() {
 }
 
 // harness functions named verif* that are ordinary Go and must be executed, not intercepted
-var verifExecuted = map[string]bool{"verifVerdict": true, "verifWarm": true, "verifSentence12": true, "verifRespell": true}
+var verifExecuted = map[string]bool{"verifVerdict": true, "verifWarm": true, "verifWarmN": true, "verifLangSel": true, "verifSentence12": true, "verifRespell": true}
 
 func constString(v Value, what string) string {
 	s, ok := v.(string)
@@ -229,13 +229,7 @@ func pGolden(x *Exec, fn *ssa.Function, a []Value) Value {
 	lg := constLang(a[0])
 	idx := asTerm(a[1])
 	x.addPC(Ult(idx, BVi(2048, 64)))
-	ids := x.goldenIDs(lg)
-	keys := make([]int, len(ids))
-	for i := range keys {
-		keys[i] = i
-	}
-	v, _ := pwApply(keys, ids, idx, IDW, BVi(0, IDW))
-	return x.mkStr([]Atom{{K: ATok, T: v}})
+	return x.mkStr([]Atom{tabTok(idx, x.goldenIDs(lg))})
 }
 
 func pGoldenIndex(x *Exec, fn *ssa.Function, a []Value) Value {
@@ -313,6 +307,9 @@ func pSpell(x *Exec, fn *ssa.Function, a []Value) Value {
 		return respell(s, form)
 	}
 	as := toAtoms(a[0])
+	if len(as) == 1 && as[0].K == ATok && as[0].Tab != nil {
+		return x.mkStr([]Atom{x.liftTok(as[0], func(s string) string { return respell(s, form) }, "respelling")})
+	}
 	id, ok := x.tokenID(as)
 	if !ok {
 		panic(unsupported("verifSpell of composite token"))
@@ -433,8 +430,13 @@ func strTerms(v Value) []*Term {
 // agrees with real SHA-256 on every H application (DESIGN §3.5).
 func (x *Exec) queryModel(extra []*Term) (string, map[int]*big.Int) {
 	want := x.modelTerms()
-	for round := 0; round < 40; round++ {
-		r, vals := x.query(extra, want)
+	var pins []*Term // try to keep the hashed messages of the previous model (then only the digest-dependent parts must adapt)
+	for round := 0; round < 64; round++ {
+		r, vals := x.query(append(append([]*Term{}, extra...), pins...), want)
+		if r == "unsat" && pins != nil {
+			pins = nil
+			continue
+		}
 		if r != "sat" {
 			return r, nil
 		}
@@ -443,6 +445,7 @@ func (x *Exec) queryModel(extra []*Term) (string, map[int]*big.Int) {
 			m[t.id] = vals[i]
 		}
 		refined := false
+		var newPins []*Term
 		for _, h := range x.happs {
 			ln, msg, app := m[h.Len.id], m[h.Msg.id], m[h.App.id]
 			d, ok := realH(ln, msg)
@@ -456,10 +459,16 @@ func (x *Exec) queryModel(extra []*Term) (string, map[int]*big.Int) {
 				x.hfacts = append(x.hfacts, Eq(UF("H", 256, BV(ln, HLenW), BV(msg, HMsgW)), BV(d, 256)))
 				refined = true
 			}
+			newPins = append(newPins, Eq(h.Len, BV(ln, HLenW)), Eq(h.Msg, BV(msg, HMsgW)))
 		}
 		if !refined {
 			x.cegarRounds += round
 			return "sat", m
+		}
+		if pins == nil {
+			pins = newPins
+		} else {
+			pins = nil
 		}
 	}
 	x.note("CEGAR cap reached refining SHA-256")
